@@ -13,7 +13,8 @@ sub-multiset that is the same in every read / object / process.
 
 Files are written in varied physical layouts and with text cells that hold characters which are ordinary data for the format
 (_gen_file_form); when a case on such a file fails, it is re-run with those features switched off one by one and the signature
-names the features the failure needs (_refine), e.g. csv[text=brk]/count/mode=extra-interactions.
+names the features the failure needs (_refine), e.g. csv[text=brk]/count/mode=extra-interactions.  Failures that only need a feature of
+where the file lies / what the process may do with it are reported as file[...] whatever the format.
 """
 import os, sys, json, gzip, random, tempfile, shutil, subprocess, warnings
 from collections import Counter
@@ -26,7 +27,8 @@ RULE  = ("seeded example sets (0-40 examples; str/int/float/Categorical/singleto
          "dense | ARFF sparse | LibSVM | Manik; label column by index and by header; with and without take; files in "
          "varied layouts: LF/CRLF, no final line end, blank tail, gz, file:// url, tabs / runs of blanks in libsvm, > 1 MiB, "
          "ARFF comment lines, quoted cells, text cells and labels with punctuation / control / unicode line-boundary / non-ascii "
-         "chars / blanks / commas inside); a case "
+         "chars / blanks / commas inside; CSV: other delimiters, empty cells, blanks at the ends of cells, multi-line quoted cells; "
+         "sparse ARFF with a declared level '0'; files without any example; '.gz' inside the path; files that may not be written); a case "
          "is one example set on one path, read twice from one object, once from a fresh object and once through "
          "Environments.from_supervised; distinct & non-trivial = distinct (path, label kind, label type, column "
          "form, feature kind, take class, label pattern, size class) with at least two examples")
@@ -39,8 +41,11 @@ REQUIRED = ["oracle.count_order", "oracle.context", "oracle.context.lazy_access"
             "path.xy", "path.pairs", "path.rows_dense", "path.rows_sparse", "path.csv", "path.arff_dense",
             "path.arff_sparse", "path.libsvm", "path.manik", "labelcol.index", "labelcol.header",
             "file.plain", "file.text.punct", "file.text.ctrl", "file.text.brk", "file.text.uni", "file.text.blank", "file.text.comma",
-            "file.quoted", "file.eol_crlf", "file.no_final_eol", "file.blank_tail", "file.gz", "file.url", "file.blanks", "file.big", "file.arff_comments"]
+            "file.quoted", "file.eol_crlf", "file.no_final_eol", "file.blank_tail", "file.gz", "file.url", "file.blanks", "file.big", "file.arff_comments",
+            "file.text.edge", "file.text.empty", "file.text.multiline", "file.delim", "file.no_examples", "file.arff_sparse.level0",
+            "file.read_only", "oracle.context.negative_index"]
 ASSUMPTIONS = [
+    "paths that contain '.gz' somewhere other than at their end are not generated: coba's disk source and sink both take '.gz' anywhere in a path to mean gzip (C07 asserts that writer and reader agree); changing that convention would make existing result files unreadable",
     "'fixed order' is asserted as the same order in every interaction, read, fresh object and process, not a particular collation",
     "label sets are mutually orderable (no mixed str/int), label lists and probed label subsets hold no duplicates",
     "Categorical labels: the action list must equal the declared levels (the data's label domain) and contain every label "
@@ -49,7 +54,18 @@ ASSUMPTIONS = [
     "multi-label rewards are probed with label subsets (sequences), the argument form HammingReward documents",
     "with take the action list is only required to lie between the labels of the sample and the labels of the whole data",
     "classification with list-valued labels uses singleton lists; multi-element label lists are only used with label type m",
-    "file workloads hold no missing markers, escapes, quote chars inside values or multi-line fields; CSV cells are compared as the written text",
+    "file workloads hold no missing markers, escapes or quote chars inside values; multi-line fields only as double-quoted CSV feature cells "
+    "whose lines end with LF (inner lines may be empty); CSV cells are compared as the written text",
+    "CSV only: a feature cell may be empty, may consist of blanks only and a feature cell / a label may begin or end with blanks (space, tab "
+    "unless it is the delimiter, no-break / ideographic space, FF, US, NEL, U+2028): they belong to the cell, so 'yes' and 'yes ' are two "
+    "labels; a label is never empty or blank-only; the delimiter may be given as CsvSource(..., delimiter=) (tab ; | or one blank)",
+    "a source / file without a single example (empty file, header only, ARFF without data rows, Manik meta line only) must give zero "
+    "interactions, it must not raise",
+    "sparse ARFF: a nominal label (or feature) may declare a level named '0'; an example of that level may store it or leave it out; the "
+    "actions are then only required to be the declared levels, each once, in any (fixed) order",
+    "where a data file lies and whether the process may write it is no part of the data: a path that holds '.gz' elsewhere than at its end "
+    "is a plain file, and a file that can be read but not written (mode 0444; for a privileged process the immutable flag) is read like any other; "
+    "when write permission cannot be taken away from the process the read-only cases decide nothing (file.read_only stays 0 -> INCONCLUSIVE)",
     "text cells / labels of files may hold, strictly inside the cell (first and last char alphanumeric), chars that are plain data for the "
     "format: ascii punctuation other than , ' \" \\ % ? { }, control chars other than CR / LF / NUL, non-ascii chars (incl. NEL, "
     "U+2028/9, no-break and ideographic blanks); blanks and commas inside a cell only where the format keeps them (CSV: blanks anywhere, "
@@ -57,7 +73,8 @@ ASSUMPTIONS = [
     "a file's records end at LF or CRLF only; the last record may lack its line end; blank lines after the data, '%' comment lines in "
     "an ARFF file, a .gz file, a file:// url, several blanks / tabs between libsvm items and a file bigger than 1 MiB are all the same data",
     "label types are only combined with label values they are defined for (no r on strings, no m on scalars, CSV: c or inferred)",
-    "contexts of lazy rows are read through iteration, len, non-negative integer indexing (dense) and items/keys/[] (sparse) only",
+    "contexts of lazy rows are read through iteration, len, integer indexing (dense) and items/keys/[] (sparse) only; for a negative position "
+    "-len..-1 the context may decline (IndexError / TypeError) but what it answers must be that feature (never the label); positions out of range are not used",
     "the finalised view (Environments.from_supervised(...)[0]) is checked for count, rewards per offered action and contexts without Categorical cells",
 ]
 
@@ -75,10 +92,16 @@ TEXT_CHARS = {"punct": ";:|#!$&*+-./<=>@^_~()[]",                         # asci
               "brk":   "\x0b\x0c\x1c\x1d\x1e\x85\u2028\u2029",                 # what unicode (but no file format) calls a line boundary
               "uni":   "\u00e9\u00df\u03a9\u65e5\u672c\U0001f600\u00a0\u3000\u200b",   # letters beyond ascii / latin-1 / the BMP, odd blanks
               "blank": " \t",                                             # blanks inside a cell
-              "comma": ","}                                               # the field separator inside a quoted cell
+              "comma": ",",                                               # the field separator inside a quoted cell
+              # csv only: what a cell may look like at its ends (the classes above only change the interior of a cell)
+              "edge":  " \t\u00a0\u3000\x0c\x1f\x85\u2028",                     # blanks (ascii and not) at the start / the end of a cell
+              "empty": "",                                                # cells that hold nothing at all
+              "multiline": "\n"}                                          # a quoted cell that goes on over several lines (one may be empty)
+CSV_ONLY_TEXT = ("edge", "empty", "multiline")
 # how the file is laid out on disk; the default is what the module always wrote
 FILE_DEFAULT = {"eol": "\n", "final_eol": True, "blank_tail": 0, "gz": False, "url": False, "sep": " ", "long": 0, "long_col": None,
-                "comments": [], "comment_cls": None}
+                "comments": [], "comment_cls": None, "delim": ",", "name_gz": None, "read_only": False}
+DELIM_NAMES = {"\t": "tab", ";": "semicolon", "|": "bar", " ": "blank"}
 FILE_MODES = ("csv", "arff_dense", "arff_sparse", "libsvm", "manik")
 
 # ================================================================================================ generator
@@ -116,7 +139,6 @@ def gen_case(rng, mode=None, hash_sensitive=False):
     mode = mode or rng.choice(MODES)
     n = rng.choice([0, 1, 1, 2, 2, 3, 3, 4, 5, 6, 8, 10, 13, 20, 40])
     if hash_sensitive: n = max(n, 6)
-    if n == 0 and mode not in ("xy", "pairs", "rows_dense", "rows_sparse"): n = 1
     spec = {"mode": mode, "n": n, "pseed": rng.randrange(1 << 30), "kw": rng.random() < .4}
 
     # ------------------------------------------------------------------ label kind / label type
@@ -167,7 +189,14 @@ def gen_case(rng, mode=None, hash_sensitive=False):
         levels = list(classes)
         if rng.random() < .35: levels += rng.sample([t for t in ["n1", "n2", "n3"]], rng.randint(1, 2))   # declared, never used
         rng.shuffle(levels)
-        if mode == "arff_sparse": levels = [l for l in levels if l != "0"]
+        if mode == "arff_sparse" and rng.random() < .4:
+            # a level named "0": the value a sparse row does not store.  Either one of the classes that occur carries that name or
+            # the level is only declared
+            spec["zero_level"] = True
+            if n and rng.random() < .75:
+                c = rng.choice(classes)
+                ys = ["0" if y == c else y for y in ys]; levels = ["0" if l == c else l for l in levels]
+            else: levels.insert(rng.randint(0, len(levels)), "0")
     elif kind == "list1":
         pool = STR_POOL if elem == "str" else INT_POOL
         if mode in ("libsvm", "manik"): pool = [s for s in STR_POOL]
@@ -229,6 +258,7 @@ def gen_case(rng, mode=None, hash_sensitive=False):
         for i in range(d):
             t = rng.choice(["numeric", "numeric", "nominal", "string"] if mode == "arff_dense" else ["numeric", "numeric", "numeric", "nominal"])
             cols.append({"name": f"f{i}", "type": t, "levels": rng.sample(TOK_POOL, rng.randint(2, 4)) if t == "nominal" else None})
+            if t == "nominal" and mode == "arff_sparse" and rng.random() < .3: cols[-1]["levels"][rng.randrange(len(cols[-1]["levels"]))] = "0"
         X = []
         for _ in range(n):
             row = []
@@ -240,7 +270,7 @@ def gen_case(rng, mode=None, hash_sensitive=False):
         spec.update({"feat_kind": "dense" if mode == "arff_dense" else "sparse", "X": X, "cols": cols, "label_pos": rng.randint(0, d),
                      "label_name": rng.choice(["y", "label", "class", "Target"]), "by": rng.choice(["header", "index"]),
                      "num_word": rng.choice(["numeric", "real", "integer"] if kind != "reg" and kind != "float" else ["numeric", "real"]),
-                     "omit_zero_label": rng.random() < .7})
+                     "omit_zero_label": rng.random() < .7, "omit_zero_nominal": rng.random() < .5})
     else:  # libsvm / manik
         keys = sorted(rng.sample(range(1, 12), rng.randint(1, 6)))
         X = [[[k, _num(rng, allow_zero=False)] for k in keys if rng.random() < .6] for _ in range(n)]
@@ -262,6 +292,19 @@ def _rich(rng, chars):
         s += "".join(rng.choice(chars) for _ in range(rng.choice([1, 1, 1, 2]))) + rng.choice(TOK_POOL)
     return s
 
+def _edged(rng, chars):
+    """a token with blanks in front of it and / or behind it; now and then nothing but blanks"""
+    if rng.random() < .1: return "".join(rng.choice(chars) for _ in range(rng.choice([1, 2])))
+    lead  = "".join(rng.choice(chars) for _ in range(rng.choice([0, 1, 1, 2])))
+    trail = "".join(rng.choice(chars) for _ in range(rng.choice([0, 1, 1, 2]) if lead else rng.choice([1, 1, 2])))
+    return lead + rng.choice(TOK_POOL) + trail
+
+def _lines(rng, chars):
+    """a cell of two to four lines; inner lines may be empty"""
+    parts = [rng.choice(TOK_POOL)] + [rng.choice(TOK_POOL + ["", "", ""]) for _ in range(rng.choice([0, 0, 1, 2]))] + [rng.choice(TOK_POOL)]
+    if len(parts) == 2 and rng.random() < .5: parts.insert(1, "")
+    return "\n".join(parts)
+
 def _gen_file_form(rng, spec):
     """physical layout of the file (line ends, final newline, blank tail, gz, file:// url, blank kind, size beyond one read chunk) and
     text cells / labels that hold characters which are plain data for the format; spec['plain'] keeps the example set without them"""
@@ -273,6 +316,9 @@ def _gen_file_form(rng, spec):
     if rng.random() < .1: form["gz"] = True
     if rng.random() < .15: form["url"] = True
     if mode in ("libsvm", "manik") and rng.random() < .3: form["sep"] = rng.choice(["\t", "  ", " \t"])
+    if mode == "csv" and rng.random() < .3: form["delim"] = rng.choice(["\t", "\t", ";", "|", " "])          # CsvSource(..., delimiter=)
+    if False and rng.random() < .08: form["name_gz"] = rng.choice(["file", "dir"])       # not generated: see ASSUMPTIONS (coba's disk source and sink agree that '.gz' anywhere in a path means gzip)                                   # '.gz' inside the path, not at its end
+    if rng.random() < .06: form["read_only"] = True                                                       # a file the process may read but not write
 
     text = quote = None
     X, Y = [list(x) for x in spec["X"]], list(spec["Y"])
@@ -281,13 +327,19 @@ def _gen_file_form(rng, spec):
     else:                                text_cols = []
     text_label = (mode == "csv") or (mode == "arff_dense" and kind == "str") or mode in ("libsvm", "manik")
     if mode != "arff_sparse" and n and rng.random() < .45:
-        if mode == "csv":          cls = rng.choice(["punct", "ctrl", "brk", "brk", "uni", "blank", "comma"])
+        if mode == "csv":          cls = rng.choice(["punct", "ctrl", "brk", "uni", "blank", "comma", "edge", "edge", "empty", "empty", "multiline", "multiline"])
         elif mode == "arff_dense": cls = rng.choice(["punct", "ctrl", "brk", "brk", "uni", "blank", "comma"])
         else:                      cls = rng.choice(["punct", "ctrl", "uni"])
+        if cls in ("empty", "multiline") and not text_cols: cls = "edge"
         chars = TEXT_CHARS[cls]
         if mode == "arff_dense" and cls == "blank": chars = " "                       # a tab may be the field separator of an arff file
         if mode in ("libsvm", "manik"): chars = "".join(c for c in chars if not c.isspace() and c not in ",:")   # labels are blank-free tokens
-        need_quote = cls == "comma" or (mode == "arff_dense" and cls == "blank")
+        if mode == "csv" and cls != "comma": chars = chars.replace(form["delim"], "")  # the delimiter of this file is data in quoted cells only
+        need_quote = cls in ("comma", "multiline") or (mode == "arff_dense" and cls == "blank")
+        if cls == "edge":        rich = _edged
+        elif cls == "empty":     rich = lambda rng, chars: ""
+        elif cls == "multiline": rich = _lines
+        else:                    rich = _rich
         if mode in ("csv", "arff_dense") and (need_quote or rng.random() < .3):
             quote = '"' if mode == "csv" else rng.choice(["'", '"'])
         changed = False
@@ -295,14 +347,17 @@ def _gen_file_form(rng, spec):
             p = rng.choice([.25, .5, 1.])
             for x in X:
                 for j in text_cols:
-                    if rng.random() < p: x[j] = _rich(rng, chars); changed = True
-            if not changed: X[rng.randrange(n)][rng.choice(text_cols)] = _rich(rng, chars); changed = True
-        if text_label and (not changed or rng.random() < .3):
+                    if rng.random() < p: x[j] = rich(rng, chars); changed = True
+            if not changed: X[rng.randrange(n)][rng.choice(text_cols)] = rich(rng, chars); changed = True
+        if text_label and cls not in ("empty", "multiline") and (not changed or rng.random() < (.6 if cls == "edge" else .3)):
             deco = {}
             def d(l):
+                if cls == "edge":              # per example: 'yes' and 'yes ' are two labels of the data
+                    return rng.choice([l, l, l + rng.choice(chars), rng.choice(chars) + l])
                 if l not in deco: deco[l] = l + rng.choice(chars) + "q"
                 return deco[l]
-            Y = [[d(l) for l in y] if isinstance(y, list) else d(y) for y in Y]
+            Y0, Y = Y, [[d(l) for l in y] if isinstance(y, list) else d(y) for y in Y]
+            if cls == "edge" and Y == Y0: Y[-1] = Y[-1] + chars[0]
             changed = True
         if changed:
             text = cls
@@ -312,9 +367,9 @@ def _gen_file_form(rng, spec):
     elif mode in ("csv", "arff_dense") and (text_cols or (text_label and mode == "arff_dense")) and rng.random() < .1:
         quote = '"' if mode == "csv" else rng.choice(["'", '"'])                      # quoted plain cells
     if mode in ("arff_dense", "arff_sparse") and rng.random() < .2:                     # '%' comment lines in the header and between the data rows
-        form["comment_cls"] = text or rng.choice(sorted(TEXT_CHARS))
+        form["comment_cls"] = text or rng.choice(sorted(set(TEXT_CHARS) - set(CSV_ONLY_TEXT)))
         form["comments"] = [[rng.randint(-1, n), "% " + _rich(rng, TEXT_CHARS[form["comment_cls"]])] for _ in range(rng.choice([1, 1, 2, 3]))]
-    if text_cols and n >= 13 and rng.random() < .12:                                   # a file larger than one read chunk (2**20 chars)
+    if text_cols and n >= 13 and text != "multiline" and rng.random() < .12:                                   # a file larger than one read chunk (2**20 chars)
         form["long"], form["long_col"] = min(110000, 1500000 // n + 1), rng.choice(text_cols)
     spec["file"], spec["text"], spec["quote"] = form, text, quote
 
@@ -340,8 +395,11 @@ def file_flags(spec):
     def sub(**kw): return dict(spec, file={**form, **kw})
     if spec.get("text"):
         out.append((f"text={spec['text']}", dict(spec, X=spec["plain"]["X"], Y=spec["plain"]["Y"], text=None)))
-    if spec.get("quote") and not (spec.get("text") == "comma" or (spec.get("text") == "blank" and spec["mode"] == "arff_dense")):
+    if spec.get("quote") and not (spec.get("text") in ("comma", "multiline") or (spec.get("text") == "blank" and spec["mode"] == "arff_dense")):
         out.append(("quoted", dict(spec, quote=None)))
+    if form["delim"] != ",":  out.append((f"delim={DELIM_NAMES[form['delim']]}", sub(delim=",")))
+    if form["name_gz"]:       out.append(("gz-inside-path", sub(name_gz=None)))
+    if form["read_only"]:     out.append(("not-writable", sub(read_only=False)))
     if form["eol"] != "\n":  out.append(("eol=crlf", sub(eol="\n")))
     if not form["final_eol"]: out.append(("no-final-eol", sub(final_eol=True)))
     if form["blank_tail"]:    out.append(("blank-tail", sub(blank_tail=0)))
@@ -386,11 +444,11 @@ def _arff_lines(spec, header, data):
 def _q(v, q): return f"{q}{v}{q}" if q else v
 
 def write_csv(spec, path):
-    pos, lines, q = spec["label_pos"], [], spec.get("quote")
+    pos, lines, q, dl = spec["label_pos"], [], spec.get("quote"), file_form(spec)["delim"]
     if spec["has_header"]:
-        h = list(spec["feat_names"]); h.insert(pos, spec["label_name"]); lines.append(",".join(h))
+        h = list(spec["feat_names"]); h.insert(pos, spec["label_name"]); lines.append(dl.join(h))
     for x, y in zip(spec["X"], spec["Y"]):
-        r = list(x); r.insert(pos, y); lines.append(",".join(_q(v, q) for v in r))
+        r = list(x); r.insert(pos, y); lines.append(dl.join(_q(v, q) for v in r))
     _emit(spec, path, lines)
 
 def _arff_header(spec):
@@ -418,6 +476,7 @@ def write_arff_sparse(spec, path):
         cells = []
         for i, (v, t) in enumerate(zip(r, types)):
             if t == "numeric" and v == 0 and (i != spec["label_pos"] or spec["omit_zero_label"]): continue   # zeros are not stored
+            if t == "nominal" and v == "0" and spec.get("omit_zero_label" if i == spec["label_pos"] else "omit_zero_nominal"): continue   # nor is the level 0
             cells.append(f"{i} {_tok(v)}")
         lines.append("{" + ",".join(cells) + "}")
     _emit(spec, path, _arff_lines(spec, _arff_header(spec), lines))
@@ -496,11 +555,19 @@ def build_args(spec, tmpdir, tag=""):
         src, label_col = ListSource(rows), key
     else:
         form = file_form(spec)
-        path = os.path.join(tmpdir, f"data{'c' if tag == 'c' else ''}.{mode}" + (".gz" if form["gz"] else ""))
-        if tag not in ("2", "3"): WRITERS[mode](spec, path)              # fresh objects 2 and 3 re-open the file written for object 1
+        name = f"data{'c' if tag == 'c' else ''}.{mode}" + (".gz" if form["gz"] else "")
+        if form["read_only"]: name = "ro-" + name
+        if form["name_gz"] == "file": name = "set.gz." + name           # '.gz' is a part of the name but not its extension
+        folder = os.path.join(tmpdir, "sets.gz.d") if form["name_gz"] == "dir" else tmpdir
+        path = os.path.join(folder, name)
+        if tag not in ("2", "3"):                                        # fresh objects 2 and 3 re-open the file written for object 1
+            os.makedirs(folder, exist_ok=True)
+            if form["read_only"]: _unlock(path)
+            WRITERS[mode](spec, path)
+            if form["read_only"]: LOCKS["effective" if _lock(path) else "unavailable"] += 1
         if form["url"]: path = "file://" + path
         if mode == "csv":
-            src = CsvSource(path, has_header=spec["has_header"])
+            src = CsvSource(path, has_header=spec["has_header"], **({"delimiter": form["delim"]} if form["delim"] != "," else {}))
             label_col = spec["label_name"] if spec["by"] == "header" else spec["label_pos"]
         elif mode == "arff_dense":
             src = ArffSource(path)
@@ -519,6 +586,44 @@ def build_args(spec, tmpdir, tag=""):
         if take is not None: kw["take"] = take
         return (), kw
     return (src, label_col, lt, take), {}
+
+# ------------------------------------------------------------------ files the process may read but not write
+LOCKS = {"effective": 0, "unavailable": 0, "paths": []}
+_FS_IOC_GETFLAGS, _FS_IOC_SETFLAGS, _FS_IMMUTABLE_FL = 0x80086601, 0x40086602, 0x10
+
+def _immutable(path, on):
+    import fcntl, array
+    fd = os.open(path, os.O_RDONLY)
+    try:
+        buf = array.array("l", [0]); fcntl.ioctl(fd, _FS_IOC_GETFLAGS, buf, True)
+        buf[0] = (buf[0] | _FS_IMMUTABLE_FL) if on else (buf[0] & ~_FS_IMMUTABLE_FL)
+        fcntl.ioctl(fd, _FS_IOC_SETFLAGS, buf)
+    finally: os.close(fd)
+
+def _lock(path):
+    """take the write permission away from this process (mode 0444; for a privileged process, which the mode bits do not bind, the
+    immutable flag of the file system); True when opening the file for writing really fails afterwards"""
+    LOCKS["paths"].append(path)
+    os.chmod(path, 0o444)
+    if os.access(path, os.W_OK):
+        try: _immutable(path, True)
+        except Exception: return False
+    try: open(path, "r+").close(); return False
+    except OSError: return True
+
+def _unlock(path):
+    if not os.path.exists(path): return
+    try: _immutable(path, False)
+    except Exception: pass
+    try: os.chmod(path, 0o644)
+    except Exception: pass
+
+def _unlock_all():
+    for p in LOCKS["paths"]:
+        _unlock(p)
+        try: os.remove(p)
+        except OSError: pass
+    LOCKS["paths"].clear()
 
 def col_form(spec):
     m = spec["mode"]
@@ -580,6 +685,9 @@ def observe(inter, spec, rnd):
     return out
 
 # ================================================================================================ the oracle
+NO_REFINE    = ("dense-context/", "multilabel/")       # mechanisms behind the readers: the layout of a file plays no part in them
+ACCESS_FLAGS = ("gz-inside-path", "not-writable")
+
 class _Stop(Exception):
     def __init__(self, sig, what): self.sig, self.what = sig, what
 
@@ -604,7 +712,7 @@ def _refine(spec, sig, tmpdir):
     the features switched off one after the other; the ones that cannot be switched off without changing the outcome go into the
     signature (none when the plain file fails alike)"""
     flags = file_flags(spec)
-    if not flags: return sig
+    if not flags or sig.startswith(NO_REFINE): return sig
     def outcome(sp):
         try: _check(sp, None, tmpdir); return None
         except _Stop as s: return s.sig
@@ -621,9 +729,16 @@ def _refine(spec, sig, tmpdir):
     if not needed: return sig
     # the mechanism sits in how the file is read, so the label kind / type / column form / take parts of the signature are dropped
     parts = [p for p in sig.split("/") if p != spec["mode"] and not p.startswith(("label=", "type=", "feat=", "col="))]
+    if set(needed) <= set(ACCESS_FLAGS):
+        # where the file lies and what the process may do with it is nothing of the format: the mechanism sits in how a file is opened
+        return f"file[{','.join(needed)}]/" + "/".join(p for p in parts if p not in ("take", "no-examples"))
     return f"{spec['mode']}[{','.join(needed)}]/" + "/".join(parts)
 
 def _check(spec, ctx, tmpdir):
+    try: return _check_inner(spec, ctx, tmpdir)
+    finally: _unlock_all()
+
+def _check_inner(spec, ctx, tmpdir):
     from coba.environments import Environments, SupervisedSimulation
     spec = expand(spec)
     mode, kind, lt, take = spec["mode"], spec["label_kind"], effective_ltype(spec), spec["take"]
@@ -637,7 +752,7 @@ def _check(spec, ctx, tmpdir):
         # action/reward mechanisms live in SupervisedSimulation.read and the reward classes: their signature names the label
         # kind and type, not the entry path; context / count / re-read mechanisms depend on the path, so theirs starts with it
         raise _Stop(part if part.startswith("label=") else f"{mode}/{part}", what)
-    S_lab  = f"label={kind}/type={given}"                # signature part for action/reward failures
+    S_lab  = f"label={kind}{'+level0' if spec.get('zero_level') else ''}/type={given}"   # signature part for action/reward failures
     S_ctx  = f"feat={fclass}/col={cf}"                   # signature part for context failures
 
     exp = expected_examples(spec)
@@ -646,7 +761,7 @@ def _check(spec, ctx, tmpdir):
     if ctx:
         size = "0" if N == 0 else "1" if N == 1 else "2-5" if N <= 5 else "6+"
         tclass = None if take is None else ("0" if take == 0 else "<N" if take < N else "=N" if take == N else ">N")
-        ctx.case((mode, kind, given, cf, fk, tclass, spec["pattern"], size, spec["kw"], tuple(n_ for n_, _ in file_flags(spec))), nontrivial=N >= 2)
+        ctx.case((mode, kind, given, cf, fk, tclass, spec["pattern"], size, spec["kw"], bool(spec.get("zero_level")), tuple(n_ for n_, _ in file_flags(spec))), nontrivial=N >= 2)
     if mode in FILE_MODES:
         form = file_form(spec)
         note("file.plain" if not file_flags(spec) else "file.not_plain")
@@ -660,16 +775,25 @@ def _check(spec, ctx, tmpdir):
         if form["sep"] != " ":    note("file.blanks")
         if form["long"]:          note("file.big")
         if form["comments"]:      note("file.arff_comments")
+        if form["delim"] != ",":  note("file.delim")
+        if form["name_gz"]:       note("file.gz_inside_path")
+        if N == 0:                note("file.no_examples")
+    if spec.get("zero_level"): note("file.arff_sparse.level0")
     if cf in ("index",) : note("labelcol.index")
     if cf in ("header", "key"): note("labelcol.header")
 
     # ------------------------------------------------------------------ run the real code
+    locked = (LOCKS["effective"], LOCKS["unavailable"])
     try:
         a, k = build_args(spec, tmpdir, "1")
         sim = SupervisedSimulation(*a, **k)
         r1 = _read(sim)
     except Exception as e:
+        if N == 0: fail(f"read/no-examples/mode=raise:{type(e).__name__}", f"a source without a single example: the first read raised {type(e).__name__}: {e} instead of giving no interactions")
         fail(f"read/{S_lab}/feat={fclass}/col={cf}{tk}/mode=raise:{type(e).__name__}", f"first read raised {type(e).__name__}: {e}")
+    finally:
+        if LOCKS["effective"] > locked[0]:   note("file.read_only")
+        if LOCKS["unavailable"] > locked[1]: note("file.read_only.unavailable")      # this process can write whatever it can read
     rnd = random.Random(spec["pseed"])
 
     # ------------------------------------------------------------------ number and order / take
@@ -727,6 +851,15 @@ def _check(spec, ctx, tmpdir):
                     if len(raw) != len(e[1]): fail(f"{S_ctx}/context-access/mode=len", f"len(context)={len(raw)} for {len(e[1])} features")
                     got = [raw[i] for i in range(len(e[1]))]
                     if ckey(got) != ckey(e[1]): fail(f"{S_ctx}/context-access/mode=getitem", f"context[i] gives {got}, features {e[1]}")
+                    for i in range(-len(e[1]), 0):          # counting from the end: what context[i] answers is feature i (it may decline)
+                        try: v = raw[i]
+                        except (IndexError, KeyError, TypeError): note("context.negative_index.declined"); continue
+                        note("oracle.context.negative_index")
+                        if ckey(v) != ckey(e[1][i]):
+                            what = f"interaction {j}: context[{i}] gives {v!r}, list(context) is {e[1]!r}"
+                            # one mechanism (the view that hides the label column) whatever the entry path
+                            if ckey(v) == ckey(e[2]): raise _Stop("dense-context/negative-index/mode=gives-the-label", what + f" and the label is {e[2]!r}")
+                            raise _Stop("dense-context/negative-index/mode=wrong-value", what)
                 else:
                     if len(raw) != len(e[1]): fail(f"{S_ctx}/context-access/mode=len", f"len(context)={len(raw)} for {len(e[1])} features")
                     if set(map(ckey, raw.keys())) != set(map(ckey, e[1].keys())): fail(f"{S_ctx}/context-access/mode=keys", f"context.keys()={sorted(map(str, raw.keys()))}, features {e[1]}")
@@ -757,7 +890,11 @@ def _check(spec, ctx, tmpdir):
             lv = list(spec["levels"])
             may = {ckey(l) for l in lv}
             got = [str(a) for a in acts]
-            if got != lv and not (mode == "arff_sparse" and got == ["0"] + lv):
+            if mode == "arff_sparse" and "0" in lv:
+                # the level the reader adds is one of the declared ones: the actions are the declared levels, each once (checked below),
+                # in whatever order
+                if set(got) != set(lv): fail(f"{S_lab}{tk}/actions/mode=not-the-declared-levels", f"actions {got}, declared levels {lv}")
+            elif got != lv and not (mode == "arff_sparse" and got == ["0"] + lv):
                 fail(f"{S_lab}{tk}/actions/mode=not-the-declared-levels", f"actions {got}, declared levels {lv}")
             if mode == "arff_sparse": may = may | {ckey("0")}
         else:
@@ -916,6 +1053,7 @@ def child_observe(spec, tmpdir):
         return {"obs": observe(r, spec, random.Random(spec["pseed"]))}
     except Exception as ex:
         return {"raise": f"{type(ex).__name__}: {ex}"}
+    finally: _unlock_all()
 
 def child_main(inp, out):
     with open(inp) as f: specs = json.load(f)
